@@ -137,6 +137,10 @@ func simC16(c *sim.Ctx) {
 	if !zero && c.Chance(250) {
 		nsub = 2 + c.Draw(3)
 	}
+	// what the data source tends to return in this run (packet, timeout, other
+	// transient error, end of input): the usual mix, bursts of one kind of
+	// transient error with nothing else in between, or hardly any error
+	mix := [][]int{{6, 2, 1, 1}, {5, 0, 5, 0}, {5, 5, 0, 0}, {12, 0, 1, 1}, {3, 3, 3, 1}}[c.Weighted(5, 2, 2, 1, 1)]
 	// decode options assigned to the packet source's fields after construction
 	late := c.Chance(300)
 	// the consumer asks for the channel a second time at this step (same channel, no second reader)
@@ -238,7 +242,7 @@ func simC16(c *sim.Ctx) {
 				c.Fault("source_terminal_error")
 				return it
 			}
-			switch c.Weighted(6, 2, 1, 1) {
+			switch c.Weighted(mix...) {
 			case 0:
 				n := 1 + c.Draw(40)
 				it.data = make([]byte, n)
@@ -256,7 +260,8 @@ func simC16(c *sim.Ctx) {
 				it.kind, it.err = 1, timeoutErr{}
 				c.Fault("source_timeout")
 			case 2:
-				it.kind, it.err = 2, fmt.Errorf("transient: %w", syscall.EAGAIN)
+				// (EAGAIN counts as a timeout for net.Error; EINTR and plain errors do not)
+				it.kind, it.err = 2, []error{fmt.Errorf("transient: %w", syscall.EAGAIN), fmt.Errorf("transient: %w", syscall.EINTR), errors.New("device busy, try again"), syscall.ENOBUFS}[c.Draw(4)]
 				c.Fault("source_transient_error")
 			case 3:
 				it.kind = 3
@@ -475,6 +480,9 @@ func simC16(c *sim.Ctx) {
 		}
 		// ---- wind down ----
 		if channel {
+			if closed && !cancelled && !terminalReturned {
+				c.Fail("shutdown", "channel-closed-without-end-of-input", "packetsToChannel", "the packet channel was closed although the data source never reported end of input and the context was not cancelled (%d packets, %d read calls so far)", len(sent), st.reads)
+			}
 			if !cancelled && !terminalReturned {
 				// end the run: the source reports end of input
 				for k := 0; k < 50 && !terminalReturned; k++ {
@@ -488,6 +496,12 @@ func simC16(c *sim.Ctx) {
 					} else {
 						time.Sleep(5 * time.Millisecond)
 					}
+					if closed && !terminalReturned {
+						c.Fail("shutdown", "channel-closed-without-end-of-input", "packetsToChannel", "the packet channel was closed although the data source never reported end of input and the context was not cancelled (%d packets, %d read calls so far)", len(sent), st.reads)
+					}
+				}
+				if !terminalReturned {
+					c.Fail("liveness", "reader-stopped-reading", "packetsToChannel", "the data source has not been read again for 250 ms of simulated time although it never reported end of input and the context was not cancelled")
 				}
 			}
 			if cancelled && st.pending {
